@@ -67,7 +67,7 @@ P.update({
  'C06': ('proof', 'PARTIAL. Proved on the model: abort() unreachable with the shipped table, no NULL callback after a successful setup, allocation balance, eav_init writes every field (regenerated), one-byte look-ahead discipline of the scanners, '
          'label-buffer bound; and index-level access models of all seven scanners (ASCII local parts, UTF-8 decoder + 6531 scanner, host name, IPv4, IPv6, is_ipaddr), of is_special_domain, is_tld and of the three ASCII e-mail composers with their macros (libc string functions as byte-by-byte scans) written with the C index arithmetic over a bounds-checked buffer: for every input they return the functional model\'s result, '
          'hence never read before the first byte or after the terminator, never use a NULL strchr result, never overflow label[64] and never exceed their loop bounds; the highest index each real scanner call reads is measured with a moving guard page and must not exceed the access model\'s. Runtime half on the real code: ASan+UBSan+LSan with inputs in exact-size heap blocks, PROT_NONE guard pages after the terminator / before the first byte on the default build, valgrind memcheck with eav_t on uninitialised memory, '
-         'callgrind instruction counts at n/2n/4n. The model cannot exhibit compiler-level UB, allocator or libc/libidn2 internals; those are covered only as far as the sanitizers see them.',
+         'callgrind instruction counts at n/2n/4n, cbmc on the C sources for every string up to a small bound (supporting run). The model cannot exhibit compiler-level UB, allocator or libc/libidn2 internals; those are covered only as far as the sanitizers see them.',
          'Coq proof of the safety logic and of index-level access models (refinement to the functional model) + measured read extents, sanitizer / guard-page / valgrind runs', '6/C06'),
  'C10': ('proof', 'Theorems relative to the IDN conversion (a parameter; each needed fact is an explicit hypothesis checked against libidn2 on every generated conversion): U-label and A-label give identical results; the ASCII modes give the A-label the same verdict; '
          'the verdict of the ASCII machinery is invariant under case folding, hence all-ASCII domains get the ASCII-mode verdict or an IDN error; refusals are rejections. Correspondence and the relations on implementation outputs: labels from 8 scripts with hyphen/disallowed/xn-- mutations, long U-labels with short A-labels, every IDN TLD.',
